@@ -47,6 +47,9 @@ pub struct Armed {
 impl Armed {
     pub fn for_prop(p: &str) -> Self {
         let mut a = Armed::default();
+        if std::env::var("TZSIM_ARM_ALL").is_ok() {
+            return Armed { c07: true, c08: true, c15: true, c17: true, c19: true, c20: true };
+        }
         match p {
             "C07" => a.c07 = true,
             "C08" => a.c08 = true,
@@ -164,13 +167,12 @@ pub struct Meas {
 impl Meas {
     /// bytes still allocated by the library on this thread, once the caller dropped the results
     pub fn retained(&self) -> isize {
-        alloc::live() - self.before - HARNESS_NET.with(|h| h.get())
+        alloc::live() - self.before - alloc::offset()
     }
 }
 
 /// Run a library call inside a measurement window; panics are caught.
 pub fn measured<T>(forbid: bool, f: impl FnOnce() -> T) -> (Result<T, String>, Meas) {
-    HARNESS_NET.with(|h| h.set(0));
     let c0 = alloc::count();
     let f0 = alloc::forbid_hits();
     let before = alloc::window_start();
@@ -179,7 +181,7 @@ pub fn measured<T>(forbid: bool, f: impl FnOnce() -> T) -> (Result<T, String>, M
     }
     let r = catch_unwind(AssertUnwindSafe(f));
     alloc::set_forbid(false);
-    let peak = alloc::peak() - before - 0;
+    let peak = alloc::peak();
     let m = Meas { before, peak, allocs: alloc::count() - c0, forbid_hits: alloc::forbid_hits() - f0, max_req: alloc::max_request() };
     let r = match r {
         Ok(t) => Ok(t),
@@ -467,7 +469,7 @@ pub fn eval_query(op: &Op, zh: Option<&ZH>, toh: Option<&ZH>, buf: Option<&mut V
         }
         Op::Now { .. } => {
             let z = need!(zh);
-            let r = run!(true, DateTime::now(z));
+            let r = run!(false, DateTime::now(z));
             harness(|| r_dt(out, &r));
             let reading = CLOCK_READS.with(|c| c.borrow().last().copied()).unwrap_or(clock_now);
             let exp = DateTime::from_total_nanoseconds(reading, z);
@@ -478,7 +480,7 @@ pub fn eval_query(op: &Op, zh: Option<&ZH>, toh: Option<&ZH>, buf: Option<&mut V
             }
         }
         Op::UtcNow => {
-            let r = run!(true, UtcDateTime::now());
+            let r = run!(false, UtcDateTime::now());
             harness(|| r_utc(out, &r));
             let reading = CLOCK_READS.with(|c| c.borrow().last().copied()).unwrap_or(clock_now);
             let exp = UtcDateTime::from_total_nanoseconds(reading);
@@ -503,7 +505,7 @@ pub fn eval_query(op: &Op, zh: Option<&ZH>, toh: Option<&ZH>, buf: Option<&mut V
                     return q;
                 }
             };
-            let r = run!(true, tzv.find_current_local_time_type().map(|l| *l));
+            let r = run!(false, tzv.find_current_local_time_type().map(|l| *l));
             harness(|| r_ltt(out, &r));
             let reading = CLOCK_READS.with(|c| c.borrow().last().copied()).unwrap_or(clock_now);
             // the statement does not fix the rounding of negative readings: accept floor and truncation
@@ -1188,6 +1190,10 @@ fn c08_finding(armed: &Armed, kind: &str, sig: &str, detail: String) {
 }
 
 fn finish_query(armed: &Armed, op: &Op, q: &QueryOut, retained: &mut Option<(isize, &'static str)>, panicked: &mut Option<String>) {
+    // first: the retained-heap reading, before any harness bookkeeping allocates
+    if let Some(m) = &q.meas {
+        *retained = Some((m.retained(), "query"));
+    }
     for p in &q.probes {
         probe(p);
     }
@@ -1198,7 +1204,6 @@ fn finish_query(armed: &Armed, op: &Op, q: &QueryOut, retained: &mut Option<(isi
         *panicked = Some(p.clone());
     }
     if let Some(m) = &q.meas {
-        *retained = Some((m.retained(), "query"));
         if q.noalloc_surface && m.forbid_hits > 0 {
             let d = format!("{} allocated {} time(s) on the no-alloc surface (largest request {} bytes)", op.text(), m.forbid_hits, m.max_req);
             push_violation(armed, "C19.no_alloc", op.name(), d.clone());
